@@ -3091,3 +3091,140 @@ func ruleSiblingArms(c *Ctx) {
 	}
 	c.Floor("type switches with sibling Array/Struct arms", n, 1)
 }
+
+// ---------------------------------------------------------------------------
+// record-layout-agreement (C20, C10, C11): with KeepOnlyLatestState or RemoveUntraceableBlocks every trie node record in
+// the store carries a reference-count suffix; a trie or billet opened over that store must be in a reference-counting
+// mode (mpt.ModeLatest bit) or it stores / reads records in the other layout. The mode of the store's owner is
+// computed from the two options in stateroot.NewModule; every other place that computes a trie mode from the same
+// options (state synchronisation builds the very records the state-root module will read after the jump) must give
+// the same reference-counting bit for all four combinations. Both sides are folded from the syntax tree.
+func ruleRecordLayoutAgreement(c *Ctx) {
+	const bitRC = int64(1)
+	type modeFn func(k, r bool) (int64, bool)
+	// fold `var mode ...; if C { mode |= X } ...` of a function body for given option values
+	flagEval := func(info *types.Info, e ast.Expr, k, r bool) (bool, bool) {
+		var ev func(e ast.Expr) (bool, bool)
+		ev = func(e ast.Expr) (bool, bool) {
+			switch x := ast.Unparen(e).(type) {
+			case *ast.SelectorExpr:
+				switch x.Sel.Name {
+				case "KeepOnlyLatestState":
+					return k, true
+				case "RemoveUntraceableBlocks":
+					return r, true
+				}
+			case *ast.UnaryExpr:
+				if x.Op == token.NOT {
+					v, ok := ev(x.X)
+					return !v, ok
+				}
+			case *ast.BinaryExpr:
+				a, ok1 := ev(x.X)
+				b, ok2 := ev(x.Y)
+				if ok1 && ok2 {
+					switch x.Op {
+					case token.LOR:
+						return a || b, true
+					case token.LAND:
+						return a && b, true
+					}
+				}
+			}
+			return false, false
+		}
+		return ev(e)
+	}
+	// collect the mode computations of a function: the if statements whose body is `<v> |= <mpt mode constant>`
+	collect := func(fd *FuncDecl) map[types.Object][]*ast.IfStmt {
+		info := fd.Pkg.TypesInfo
+		out := map[types.Object][]*ast.IfStmt{}
+		ast.Inspect(fd.Decl.Body, func(x ast.Node) bool {
+			is, ok := x.(*ast.IfStmt)
+			if !ok || len(is.Body.List) != 1 {
+				return true
+			}
+			as, ok := is.Body.List[0].(*ast.AssignStmt)
+			if !ok || as.Tok != token.OR_ASSIGN || len(as.Lhs) != 1 {
+				return true
+			}
+			id, ok := as.Lhs[0].(*ast.Ident)
+			if !ok || !namedTypeIs(info.TypeOf(id), "pkg/core/mpt", "TrieMode") {
+				return true
+			}
+			if _, _, ok := func() (bool, bool, bool) { a, b := flagEval(info, is.Cond, false, false); return a, b, b }(); !ok {
+				return true
+			}
+			out[info.ObjectOf(id)] = append(out[info.ObjectOf(id)], is)
+			return true
+		})
+		return out
+	}
+	foldMode := func(fd *FuncDecl, ifs []*ast.IfStmt) modeFn {
+		info := fd.Pkg.TypesInfo
+		return func(k, r bool) (int64, bool) {
+			var mode int64
+			for _, is := range ifs {
+				v, ok := flagEval(info, is.Cond, k, r)
+				if !ok {
+					return 0, false
+				}
+				if v {
+					tv, ok := info.Types[is.Body.List[0].(*ast.AssignStmt).Rhs[0]]
+					if !ok || tv.Value == nil {
+						return 0, false
+					}
+					bits, _ := constant.Int64Val(constant.ToInt(tv.Value))
+					mode |= bits
+				}
+			}
+			return mode, true
+		}
+	}
+	ref := c.P.Func("pkg/core/stateroot", "", "NewModule")
+	if ref == nil {
+		c.Lost("record-layout-agreement.reference", "stateroot.NewModule not found")
+		return
+	}
+	var refFn modeFn
+	for _, ifs := range collect(ref) {
+		refFn = foldMode(ref, ifs)
+	}
+	if refFn == nil {
+		c.Lost("record-layout-agreement.reference", "stateroot.NewModule no longer computes its trie mode from KeepOnlyLatestState / RemoveUntraceableBlocks")
+		return
+	}
+	n := 0
+	for _, fd := range c.P.AllFuncDecls() {
+		if fd.Decl.Body == nil || pkgRel(fd.Pkg.Types) != "pkg/core/statesync" {
+			continue
+		}
+		for _, ifs := range collect(fd) {
+			n++
+			key := fmt.Sprintf("record-layout-agreement.%s#%d", FuncKey(fd.Obj), n)
+			fn := foldMode(fd, ifs)
+			bad := ""
+			for _, kr := range [][2]bool{{false, false}, {true, false}, {false, true}, {true, true}} {
+				a, ok1 := refFn(kr[0], kr[1])
+				b, ok2 := fn(kr[0], kr[1])
+				if !ok1 || !ok2 {
+					bad = "not foldable"
+					break
+				}
+				if a&bitRC != b&bitRC {
+					bad = fmt.Sprintf("with KeepOnlyLatestState=%v and RemoveUntraceableBlocks=%v the state-root module uses mode %#x and this trie mode %#x: node records are written in one layout (reference-count suffix or not) and read in the other", kr[0], kr[1], a, b)
+					break
+				}
+			}
+			switch bad {
+			case "":
+				c.OK(key, c.P.Pos(ifs[0].Pos()), "the reference-counting bit of this trie mode agrees with the state-root module's for all four option combinations")
+			case "not foldable":
+				c.Unclassified(key, c.P.Pos(ifs[0].Pos()), "mode computation not foldable")
+			default:
+				c.Fail(key, c.P.Pos(ifs[0].Pos()), FuncKey(fd.Obj)+": "+bad)
+			}
+		}
+	}
+	c.Floor("trie modes computed from the ledger options in state sync", n, 2)
+}
